@@ -257,6 +257,12 @@ class DocModel(object):
     else:
       self._auto_remove_set.discard(record)
 
+  def get_auto_removes(self):
+    return set(self._auto_remove_set)
+
+  def set_auto_removes(self, records):
+    self._auto_remove_set = set(records)
+
   def clear_auto_removes(self):
     """
     Forget the records marked for removal (used when the actions that marked them get reverted).
